@@ -178,12 +178,10 @@ func allConfigs() []namedCfg {
 }
 
 func cfgByName(name string) (namedCfg, bool) {
-	for _, c := range allConfigs() {
-		if c.name == name {
-			return c, true
-		}
+	if c, ok := cfgByNameIn(allConfigs(), name); ok {
+		return c, true
 	}
-	return namedCfg{}, false
+	return cfgByNameIn(blankConfigs(), name) // the MaxBlankLines family of the gap space (gaps.go)
 }
 
 func pickCfgs(names ...string) []namedCfg {
@@ -289,6 +287,7 @@ type wstats struct {
 	sinceGC                   int
 	id                        int
 	set                       *cfgSet // this worker's private configuration objects for the current sub-space
+	base                      []int   // gap space only: per configuration of set the index of its mode's base configuration
 }
 
 type kase struct {
@@ -374,7 +373,15 @@ func (e *explorer) report(sp string, text string, f finding, under []namedCfg) {
 
 // leaf checks one text with the worker's private configurations and books the result.
 func (e *explorer) leaf(w *wstats, space, text string, real bool) (accepted, interesting bool) {
-	fs, st := checkGuarded(text, w.set, real, false)
+	var fs []finding
+	var st checkStats
+	under := w.set.cfgs
+	if w.base != nil {
+		fs, st = checkCollapsed(text, w.set, w.base)
+		under = gapBases(w.set.cfgs, w.base)
+	} else {
+		fs, st = checkGuarded(text, w.set, real, false)
+	}
 	w.texts++
 	if real {
 		// formatter.Format allocates a 128 KiB scanner buffer per call; on a
@@ -416,7 +423,7 @@ func (e *explorer) leaf(w *wstats, space, text string, real bool) (accepted, int
 		cl := f.Cfg + "/" + f.Class
 		w.classes[cl]++
 		if w.classes[cl] <= 2 {
-			e.report(space, text, f, w.set.cfgs)
+			e.report(space, text, f, under)
 		}
 	}
 	return accepted, interesting
@@ -565,7 +572,26 @@ var literalContexts = []string{"%s", "%s\n", "(%s)", "(a %s)", "(%s a)", "'%s", 
 
 // ---------------------------------------------------------------------------
 
+// only implements the development switch C16_ONLY=<substring>[,<substring>...]: run
+// only the sub-spaces whose name contains one of the substrings ("tables" = the
+// extras and the literal table).  A run under the switch is reported capped.
+func only(name string) bool {
+	sel := os.Getenv("C16_ONLY")
+	if sel == "" {
+		return true
+	}
+	for _, s := range strings.Split(sel, ",") {
+		if s != "" && strings.Contains(name, s) {
+			return true
+		}
+	}
+	return false
+}
+
 func run(r *core.Run) {
+	if sel := os.Getenv("C16_ONLY"); sel != "" {
+		r.Cap("development switch C16_ONLY=" + sel + ": only the selected sub-spaces were run")
+	}
 	// the work is millions of tiny short-lived parses over a tiny live heap
 	// (not for the sub-spaces that call formatter.Format: its 128 KiB scanner buffers would pile up)
 	defer debug.SetGCPercent(debug.SetGCPercent(100))
@@ -636,6 +662,7 @@ func run(r *core.Run) {
 		"every text goes to the strict reader; rejected => Format must fail with nil output; accepted => every configuration: typed LVal equality of strict parses, equality of my walker's tree over a re-lex (spellings, bracket kinds), comment list + anchors (unless stripping), Format(out)==out. " +
 		"After every text the configuration objects must equal their snapshots (Format does not modify the caller's *Config). " +
 		"Form space: every sequence of whole forms (head x layout x nesting) formatted one after the other with one shared *Config vs alone with a fresh one, and as one file with reused vs fresh configurations. " +
+		"Gap space: every gap of whole templates (before, between and after the tokens) filled with a run of k comments and n0..nk newlines around them (flush-left or indented lines), one gap and then two gaps at a time, under MaxBlankLines 0..5 in every mode (default, compact, strip, compact+strip), same oracles; nothing is asserted about how many blank lines come out. " +
 		"Token-size boundary: one token of every kind at lengths around and beyond token.DefaultBufSize in every context: Format accepts exactly what the production reader parser.NewReader() accepts, rejected => nil output, accepted output is read back by the production reader to the same tree, idempotent. " +
 		"Non-trivial = a token sequence with an accepted rendering that carries a comment and is changed by Format; distinct by token sequence")
 	r.Assume("a comment in the gap between a prefix token (' #' #^) and its operand counts as preceding the prefix form: the parser documents that it hoists it there (hoistOperandComments); the statement's 'before the same expression' is read modulo that hoist")
@@ -655,7 +682,7 @@ func run(r *core.Run) {
 		return
 	}
 	// the form space (forms.go): histories of whole forms under one shared *Config; first because it is cheap
-	if !r.Expired() {
+	if !r.Expired() && only("form-pairs") {
 		forms := allForms()
 		depth, name := 2, "QF-form-pairs"
 		if r.Thorough() {
@@ -664,8 +691,18 @@ func run(r *core.Run) {
 		}
 		e.exploreFormsTimed(name, depth, forms, workers, perSpace, sum)
 	}
+	// the gap space (gaps.go): comment groups and blank-line runs under every MaxBlankLines
+	if gb := gapBoundsFor(r.Thorough()); !r.Expired() && only(gb.name) {
+		t0, a0 := sum()
+		start, cpu0 := time.Now(), cpuSeconds()
+		debug.SetGCPercent(800)
+		e.exploreGaps(gb, workers)
+		t1, a1 := sum()
+		perSpace[gb.name] = map[string]any{"texts": t1 - t0, "accepted": a1 - a0, "wall_s": time.Since(start).Seconds(), "cpu_s": cpuSeconds() - cpu0}
+		fmt.Fprintf(os.Stderr, "c16: %s done: %d texts, %d accepted, %.0fs wall, %.0fs cpu, %d violations so far\n", gb.name, t1-t0, a1-a0, time.Since(start).Seconds(), cpuSeconds()-cpu0, r.ViolationCount())
+	}
 	// the longhand prefix-form space (prefix.go)
-	if !r.Expired() {
+	if !r.Expired() && only("longhand-prefix-forms") {
 		t0, a0 := sum()
 		start, cpu0 := time.Now(), cpuSeconds()
 		debug.SetGCPercent(800)
@@ -681,7 +718,7 @@ func run(r *core.Run) {
 		fmt.Fprintf(os.Stderr, "c16: %s done: %d texts, %d accepted, %.0fs wall, %.0fs cpu, %d violations so far\n", name, t1-t0, a1-a0, time.Since(start).Seconds(), cpuSeconds()-cpu0, r.ViolationCount())
 	}
 	// the token-size boundary space (boundary.go)
-	if !r.Expired() {
+	if !r.Expired() && only("token-size-boundary") {
 		t0, a0 := sum()
 		start, cpu0 := time.Now(), cpuSeconds()
 		debug.SetGCPercent(100)
@@ -695,6 +732,9 @@ func run(r *core.Run) {
 		fmt.Fprintf(os.Stderr, "c16: %s done: %d texts, %d accepted, %.0fs wall, %.0fs cpu, %d violations so far\n", name, t1-t0, a1-a0, time.Since(start).Seconds(), cpuSeconds()-cpu0, r.ViolationCount())
 	}
 	for _, s := range specs {
+		if !only(s.Name) {
+			continue
+		}
 		if r.Expired() {
 			r.Cap("soft deadline before sub-space " + s.Name)
 			break
@@ -716,7 +756,13 @@ func run(r *core.Run) {
 	tabSet := ownCfgSet(all)
 	ws := workers[0]
 	table := append([]string{}, extras...)
+	if !only("tables") {
+		table = nil
+	}
 	for _, l := range literals {
+		if !only("tables") {
+			break
+		}
 		for _, c := range literalContexts {
 			table = append(table, strings.ReplaceAll(c, "%s", l))
 		}
